@@ -45,7 +45,7 @@ def run(ctx, eng):
                    'appended (%s); the only check is the assertion after '
                    'the append' % (desc, reason), node=s['node'])
     ctx.record('emit_sites', n)
-    ctx.floor('emit_sites', 14)
+    ctx.floor('emit_sites', 12)
     check_apply(ctx, eng, H + '_acknowledge_settings',
                 {'MAX_FRAME_SIZE': REMOTE_APPLY['MAX_FRAME_SIZE']}, 'remote')
     f0 = m.func(H + '_begin_new_stream')
@@ -359,6 +359,13 @@ def run(ctx, eng):
            'that sets it' if chk_at is not None and (
                ser_at is None or ser_at > chk_at) else
            'checked after serialisation (or no such check)', node=fp.node)
+    cm.include(ctx, eng, 'C13',
+               lambda o: o.rule == 'ATOM.ENC' and isinstance(o.desc, str) and
+               (o.desc.startswith('raise after encode') or
+                o.desc.startswith('no raise after an encode')),
+               'a header block that was encoded but not emitted leaves the '
+               'encoder ahead of the bytes: the next block no longer decodes '
+               'at an independent decoder')
     ctx.assume('that hyperframe serialises a frame object correctly and '
                'HPACK output are trusted; "parses with an independent '
                'decoder" as such is not decided')
